@@ -163,7 +163,7 @@ Transform == /\ pc = "done" /\ Mode = "value" /\ api = "boot" /\ meth \in CosTyp
 XfRow(x, t) == [k \in 1..Len(x) |-> IF x[k] = NaN THEN NaN ELSE t[1] * x[k] + t[2]]
 
 (* ---------------- initial states ------------------------------------------ *)
-NonConst(x) == \E j \in 1..Len(x) : x[j] # x[1]
+NonConst(x) == Cardinality(Range(x)) > 1        \* (no \E: TLC would branch on its witnesses in Init)
 RowSet(mask) == {x \in [1..L -> {NaN} \cup (0..ValMax)] : MaskOf(x) = mask /\ NonConst(Compact(x))}
 RowKey(x) == SumS([k \in 1..Len(x) |-> (x[k] + 1) * ((ValMax + 2) ^ (k - 1))])
 \* rows are thinned first (ThinR), stacks are kept sorted (within groups) and thinned again
